@@ -595,7 +595,7 @@ class NpIdx(Base):
     """L0: the numpy indexing model against numpy itself, on the whole view domain (negative steps and
     negative integers included)."""
     name = "npidx"
-    exhaustive = True
+    exhaustive = False  # exhaustive for 1-d / 2-d / small 3-d shapes; the largest 3-d shapes are sampled in quick
     batch = 4000
     budget_share = 0.6
 
@@ -950,7 +950,7 @@ class IdxStat(Base):
     """`IndexedData.compute_statistic / compute_histogram` against the parent slice (exact integers),
     before and after a change of indices."""
     name = "idxstat"
-    exhaustive = True
+    exhaustive = False  # quick skips some (index tuple, selection) pairs at random
     budget_share = 0.8
 
     WHATS = [["stat", "sum"], ["stat", "minimum"], ["stat", "maximum"], ["hist"], ["stataxis", "sum"], ["stataxis", "maximum"]]
